@@ -56,7 +56,7 @@ def state_level(run, thorough):
     metas = []
     for k in range(n):
         name = gen_name(rng)
-        where = rng.choice(['home', 'home', 'vol', 'vol_top', 'home_deep']) if rng.random() > 0.1 else rng.choice(['home_long', 'vol_long', 'forced', 'forced'])
+        where = rng.choice(['home', 'home', 'vol', 'vol_top', 'home_deep']) if rng.random() > 0.1 else rng.choice(['home_long', 'vol_long', 'forced', 'forced', 'selfnest'])
         sticky = rng.random() < 0.5
         tree = [['d', '/home/u', 0o755], ['d', '/vol1', 0o755]]
         if sticky:
@@ -80,6 +80,11 @@ def state_level(run, thorough):
         if len(os.fsencode(parent)) > 3000:
             parent = '/home/u'
         kind = rng.choice(['f', 'f', 'd', 'l'])
+        if where == 'selfnest':
+            # the directory that CONTAINS the home trash: the first candidate creates its directories and its info file, then cannot move
+            # the directory into itself; the entry falls through to /.Trash-$uid, whose Path is relative to the top directory '/'
+            parent, name, kind = '/home/u', '.local', 'd'
+            tree.append(['d', '/home/u/.local/share', 0o755])
         full = parent + '/' + name
         tree.append(['d', parent, 0o755])
         if kind == 'f':
@@ -118,6 +123,8 @@ def state_level(run, thorough):
         uid = meta['uid']
         if meta['where'] in ('home', 'home_deep', 'home_long'):
             td, loc = '/home/u/.local/share/Trash', meta['full']
+        elif meta['where'] == 'selfnest':
+            td, loc = '/.Trash-%d' % uid, meta['full'][1:]
         elif meta['where'] == 'forced':
             td = '/vol1/.Trash/%d' % uid if meta['sticky'] else '/vol1/.Trash-%d' % uid
             loc = meta['full']
